@@ -62,6 +62,7 @@ Plan generate(uint64_t seed, uint64_t run, bool thorough) {
     draw_schedule(r, p.sched, (int)p.get("nt"));
     draw_vary_params(r, p, 0.5);
     p.set("nested", r.chance(0.2) ? 1 : 0, 0);
+    p.set("alt", r.chance(0.2) ? 1 : 0, 0);
     p.set("valued", (!model && r.chance(0.2)) ? r.range(1, 2) : 0, 0);      // complex / 2x2 block valued system
     if (p.get("valued") && p.get("n") > 160) p.set("n", 160, 1);
     return p;
@@ -209,14 +210,18 @@ Result execute(const Plan &p) {
     // nested regions are serialised (every OpenMP runtime's default), the library's teams have one member while
     // omp_get_max_threads() still reports nt - a legal situation in which the reported residual must still be the true one
     const bool nested = p.get("nested", 0) != 0 && nt >= 2 && !model;
+    const bool alt = p.get("alt", 0) != 0 && !model;
+    if (alt) res.counts["solve_with_passed_matrix_worlds"]++;
     if (nested) { res.counts["nested_caller_worlds"]++; res.faults["team_smaller_than_max_threads"]++; }
     auto body = [&]() {
         try {
-            gen::Csr Ac = A;
+            // "alt": the bundle is built for a neighbouring matrix (diagonal times 1.25) and the system is handed over through the
+            // documented overload solve(A, rhs, x) - the reported residual must be that of the matrix passed, not of the one built for
+            gen::Csr Ac = A; if (alt) for (long i = 0; i < Ac.n; ++i) for (ptrdiff_t j = Ac.ptr[i]; j < Ac.ptr[i+1]; ++j) if (Ac.col[j] == i) Ac.val[j] *= 1.25;
             Solver S(Ac.tie(), prm); constructed = true;
             { std::ostringstream os; os << S.precond(); std::string t = os.str(); size_t pos = t.find("Number of levels:"); if (pos != std::string::npos) nlevels = (size_t)atoi(t.c_str() + pos + 17); }
             if (p.get("warmup")) { std::vector<double> y(n, 0.0); try { S(f2, y); } catch (const std::exception &) {} res.faults["warmup_solve_on_same_object"]++; }
-            std::tie(iters, resid) = S(f, x);
+            if (alt) { auto Acrs = to_crs(A); std::tie(iters, resid) = S(*Acrs, f, x); } else std::tie(iters, resid) = S(f, x);
             {   // how much the preconditioned operator amplifies: |A P f| / |f| (the conditioning of the call, not only of A)
                 std::vector<double> u(n, 0.0); S.precond().apply(f, u); double w = 0, fi = 0;
                 for (long i = 0; i < n; ++i) { long double t = 0; for (ptrdiff_t j = A.ptr[i]; j < A.ptr[i+1]; ++j) t += (long double)A.val[j] * u[A.col[j]]; w = std::max(w, std::fabs((double)t)); fi = std::max(fi, std::fabs(f[i])); }
